@@ -517,6 +517,117 @@ let cmd_wbf (args : string list) : string =
      | _ -> "err undecodable")
   | _ -> "err badcmd"
 
+(* ---------- the state of a document at a snapshot (Crdt/Snapshot.v: encode_state_from_snapshot, write_blocks_to, snapshot) ---------- *)
+let b01 b = if b then "1" else "0"
+let sort_clients l = List.sort (fun (a, _) (b, _) -> compare (String.length (hex_of_n a), hex_of_n a) (String.length (hex_of_n b), hex_of_n b)) l
+let cmd_snp (args : string list) : string =
+  let store_of hx = let fb = bytes_of_hex hx in (match decode_update_v1 (fuel_for fb) fb with Ok (u, _) -> Some (wbf_store_of u) | _ -> None) in
+  match args with
+  | ["enc"; gc; full; snap] ->
+    let sb = bytes_of_hex snap in
+    (match store_of full, decode_snapshot_v1 (fuel_for sb) sb with
+     | Some st, Ok ((ds, sv), _) ->
+       let ((a, b), c) = snp_hypotheses st sv in
+       let hyp = " wf=" ^ b01 a ^ " sv=" ^ b01 b ^ " cut=" ^ b01 c ^ " holes=" ^ b01 (not (snp_no_holes st)) in
+       (match snp_encode_state_from_snapshot_v1 (gc = "1") st sv ds with
+        | Ok (o, _) -> "ok " ^ hex_of_bytes o ^ hyp | Panic s -> "panic " ^ hex_of_n s ^ hyp | Err e -> "err " ^ err_name e ^ hyp | Fuel -> "fuel")
+     | _ -> "err undecodable")
+  | ["snap"; full] ->
+    (match store_of full with
+     | Some st -> let (sv, ds) = snp_snapshot_sorted st in "ok " ^ print_idset (sort_clients ds) ^ "@" ^ print_sv sv
+     | None -> "err undecodable")
+  | ["ext"; f0; f1] ->
+    (* the wire form of an item with an origin does not name its parent (the decoder takes it from the origin item): fill it in,
+       so that a unit compares equal to itself after the block it lies in was split *)
+    let resolve (st : (n * (block * bool) list) list) =
+      let find (i : id) = List.find_map (fun (c, bs) -> if c <> i.cl then None else
+        List.find_map (fun (b, _) -> match b with
+          | BItem (j, _, _, _, _, _) when N.leb j.ck i.ck && N.ltb i.ck (N.add j.ck (block_len b)) -> Some b
+          | _ -> None) bs) st in
+      let rec par (d : int) (b : block) = match b with
+        | BItem (_, o, ro, PUnknown, ps, _) when d < 100000 ->
+          (match (match o with Some x -> Some x | None -> ro) with
+           | Some x -> (match find x with Some bb -> par (d + 1) bb | None -> (PUnknown, ps))
+           | None -> (PUnknown, ps))
+        | BItem (_, _, _, p, ps, _) -> (p, ps)
+        | _ -> (PUnknown, None) in
+      List.map (fun (c, bs) -> (c, List.map (fun (b, d) -> match b with
+        | BItem (i, o, ro, _, _, ct) -> let (p, ps) = par 0 b in (BItem (i, o, ro, p, ps, ct), d)
+        | _ -> (b, d)) bs)) st in
+    (match store_of f0, store_of f1 with
+     | Some a, Some b -> let (a, b) = (resolve a, resolve b) in "ok ext=" ^ b01 (snp_extends_b a b) ^ " holes=" ^ b01 (not (snp_no_holes a))
+     | _ -> "err undecodable")
+  | _ -> "err badcmd"
+
+(* ---------- sticky indexes at block level (Crdt/Sticky.v: StickyIndex::at / get_offset over one branch) ---------- *)
+(* blocks "c:k:D:T,..." with D = 0|1 (deleted) and T = s<cp>.<cp>... (string, code points) | e<n> (n countable elements) | n<n> (not countable) *)
+let stk_parse_blocks (s : string) : stk_block list =
+  if s = "_" then [] else List.map (fun t -> match String.split_on_char ':' t with
+    | [c; k; d; ty] ->
+      let body = String.sub ty 1 (String.length ty - 1) in
+      let cont = (match ty.[0] with
+        | 's' -> StkStr (if body = "" then [] else List.map n_of_hex (String.split_on_char '.' body))
+        | 'e' -> StkElems (n_of_hex body)
+        | _ -> StkNon (n_of_hex body)) in
+      { stk_cl = n_of_hex c; stk_ck = n_of_hex k; stk_cont = cont; stk_del = (d = "1") }
+    | _ -> failwith "stk block") (String.split_on_char ',' s)
+let stk_print_scope = function StkOk (StkRel (c, k)) -> "R" ^ print_ck (c, k) | StkOk StkBranch -> "B" | StkNone -> "N" | StkPanic -> "P" | StkFuel -> "F"
+let stk_print_off = function StkOk n -> hex_of_n n | StkNone -> "N" | StkPanic -> "P" | StkFuel -> "F"
+let cmd_stk (args : string list) : string =
+  let kind k = if k = "b" then StkBytes else StkUtf16 in
+  match args with
+  | ["all"; k; clen; pdel; blocks] ->
+    let br = { stk_blocks = stk_parse_blocks blocks; stk_clen = n_of_hex clen; stk_pdel = (pdel = "1") } in
+    "ok wf=" ^ b01 (stk_wf (kind k) br) ^ " " ^
+    String.concat ";" (List.map (fun (((i, a), r), o) -> hex_of_n i ^ (if a then "a" else "b") ^ stk_print_scope r ^ ">" ^ stk_print_off o) (stk_check_all (kind k) br))
+  | ["off"; k; clen; pdel; blocks; sc; a] ->
+    let br = { stk_blocks = stk_parse_blocks blocks; stk_clen = n_of_hex clen; stk_pdel = (pdel = "1") } in
+    let scope = if sc = "B" then StkBranch else (let (c, ck) = parse_ck sc in StkRel (c, ck)) in
+    "ok " ^ stk_print_off (stk_get_offset (kind k) br scope (if a = "a" then StkAfter else StkBefore))
+  | _ -> "err badcmd"
+
+(* ---------- the garbage collector at block level (Crdt/GcBlocks.v: TransactionMut::gc = GCCollector::collect_all) ---------- *)
+(* store = the blocks of the document's full state + per block the flags deleted/keep/countable ("c=dkc,dkc;...") + the branches
+   "P~seq~key=ids|key=ids/..." (P = r<name hex> | i<c:k>; ids comma separated, chains left-most first as the hook lists them) *)
+let gcb_parse_ids (s : string) : id list = if s = "_" || s = "" then [] else List.map (fun t -> let (c, k) = parse_ck t in { cl = c; ck = k }) (String.split_on_char ',' s)
+let gcb_parse_branches (s : string) =
+  if s = "_" then [] else List.map (fun b -> match String.split_on_char '~' b with
+    | [p; sq; mp] ->
+      let par = (if p.[0] = 'r' then PNamed (bytes_of_hex (String.sub p 1 (String.length p - 1))) else (let (c, k) = parse_ck (String.sub p 1 (String.length p - 1)) in PId { cl = c; ck = k })) in
+      let chains = if mp = "_" then [] else List.map (fun e -> match String.split_on_char '=' e with
+        | [k; ids] -> (bytes_of_hex k, List.rev (gcb_parse_ids ids))
+        | _ -> failwith "gcb chain") (String.split_on_char '|' mp) in
+      (par, { gcb_seq = gcb_parse_ids sq; gcb_map = chains })
+    | _ -> failwith "gcb branch") (String.split_on_char '/' s)
+let gcb_print_units (v : (n * (((n * n) * n) * bool) list) list) : string =
+  String.concat ";" (List.concat_map (fun (c, bs) -> List.concat_map (fun (((k, l), kd), d) ->
+    List.init (int_of_n l) (fun j -> hex_of_n c ^ ":" ^ hex_of_n (N.add k (n_of_int j)) ^ ":" ^ hex_of_n kd ^ (if d then "d" else "l"))) bs) v)
+let cmd_gcb (args : string list) : string =
+  match args with
+  | ["run"; full; flags; branches; ods] ->
+    let fb = bytes_of_hex full in
+    (match decode_update_v1 (fuel_for fb) fb with
+     | Ok (u, _) ->
+       let fl = if flags = "_" then [] else List.map (fun cs -> match String.split_on_char '=' cs with
+         | [c; fs] -> (n_of_hex c, String.split_on_char ',' fs) | _ -> failwith "gcb flags") (String.split_on_char ';' flags) in
+       let clients = List.map (fun (c, bs) ->
+         let fs = (try List.assoc c fl with Not_found -> failwith "gcb flags client") in
+         if List.length fs <> List.length bs then failwith "gcb flags length";
+         (c, List.map2 (fun b f -> { gcb_blk = b; gcb_del = (f.[0] = '1'); gcb_keep = (f.[1] = '1'); gcb_cnt = (f.[2] = '1') }) bs fs)) u.u_blocks in
+       let st = { gcb_clients = clients; gcb_branches = gcb_parse_branches branches } in
+       let ods = if ods = "-" then None else Some (List.map (fun (c, rs) -> (c, List.map (fun ((a, b), ()) -> (a, b)) rs)) (adl_parse_ds ods)) in
+       let hyp = " total_ok=" ^ b01 (gcb_total_ok st) ^ " clients_ok=" ^ b01 (gcb_clients_ok st) in
+       (match gcb_run st ods with
+        | Adl_ok st' ->
+          let len_of (i : id) = (match List.concat_map (fun (c, bs) -> if c = i.cl then List.filter (fun (((k, _), _), _) -> k = i.ck) bs else []) (gcb_cells_view st') with (((_, l), _), _) :: _ -> int_of_n l | [] -> 1) in
+          let units ids = String.concat "," (List.concat_map (fun (i : id) -> List.init (len_of i) (fun j -> print_ck (i.cl, N.add i.ck (n_of_int j)))) ids) in
+          let pb (p, b) = (match p with PNamed nm -> "r" ^ rawhex nm | PId i -> "i" ^ print_ck (i.cl, i.ck) | PUnknown -> "?") ^ "~" ^ units b.gcb_seq ^ "~" ^
+            String.concat "|" (List.sort compare (List.map (fun (k, ids) -> rawhex k ^ "=" ^ units (List.rev ids)) b.gcb_map)) in
+          "ok " ^ gcb_print_units (gcb_cells_view st') ^ " " ^ String.concat "/" (List.sort compare (List.map pb (gcb_branches_view st'))) ^ hyp
+        | Adl_panic -> "panic" ^ hyp)
+     | _ -> "err undecodable")
+  | _ -> "err badcmd"
+
 (* ---------- codecs ---------- *)
 let print_idm (v : (n * ((n * n) * ((n list * any) option) list) list) list) : string =
   let pa = function None -> "?" | Some (nm, vl) -> rawhex nm ^ "=" ^ print_any vl in
@@ -835,6 +946,9 @@ let dispatch (line : string) : string =
   | "RT" :: args -> cmd_rt args
   | "XW" :: args -> cmd_xw args
   | "WBF" :: args -> cmd_wbf args
+  | "SNP" :: args -> cmd_snp args
+  | "STK" :: args -> cmd_stk args
+  | "GCB" :: args -> cmd_gcb args
   | "DEC" :: args -> cmd_dec args
   | "ENC" :: args -> cmd_enc args
   | ["PING"] -> "ok pong"
